@@ -149,7 +149,10 @@ def check(case, do_crosscheck=True):
         labels.add("nontrivial")
     if len(stmts) > 1:
         labels.add("multi-line")
-    text = "\n".join(lines) + ("\n" if case.get("final_nl", True) else "")
+    eol = case.get("eol", "\n")
+    if eol != "\n":
+        labels.add("crlf")
+    text = eol.join(lines) + (eol if case.get("final_nl", True) else "")
     res, crash = read_doc(text)
     if crash is not None:
         if isinstance(crash, sut.Hang):
@@ -279,7 +282,7 @@ def stmt(draw):
     s = draw(st.integers(0, len(SUBJECTS) - 1))
     p = draw(st.integers(0, len(PREDS) - 1))
     sep = draw(st.sampled_from(SEPS))
-    tail = draw(st.sampled_from(TAILS))
+    tail = draw(st.sampled_from(TAILS + ["  . ", "\t.", " .\t# c", " .#c"]))
     if draw(st.integers(0, 9)) < 7:
         toks = draw(st.lists(st.integers(0, len(TOKENS) - 1), max_size=12))
         sfx = draw(st.integers(0, len(SUFFIXES) - 1))
@@ -359,7 +362,8 @@ def rich_stmt(draw):
 def cases(draw):
     if draw(st.integers(0, 2)) == 0:
         return {"rich": draw(st.lists(rich_stmt(), min_size=1, max_size=3)), "final_nl": draw(st.booleans())}
-    return {"stmts": draw(st.lists(stmt(), min_size=1, max_size=5)), "final_nl": draw(st.booleans())}
+    return {"stmts": draw(st.lists(stmt(), min_size=1, max_size=5)), "final_nl": draw(st.booleans()),
+            "eol": draw(st.sampled_from(["\n", "\n", "\r\n"]))}
 
 
 def strategy(tier):
